@@ -181,4 +181,27 @@ def plan_C17(res, binary, hooked, tier, seed):
     lzma2_layer(res, binary, hooked, tier, seed, "C17", 0)
     return ("all chunk sequences of the bounded model ending in one framing fault: control 0x03/0x7F, props >= 225, lc+lp > 4, declared packed size too small / too large, declared unpacked size larger / smaller (cut inside a match / between symbols), short uncompressed chunk, missing end byte; distinct = distinct (stream bytes, api)"), TRUSTED_L2
 
-PLANS = {"C01": plan_C01, "C05": plan_C05, "C08": plan_C08, "C09": plan_C09, "C10": plan_C10, "C15": plan_C15, "C16": plan_C16, "C03": plan_C03, "C06": plan_C06, "C18": plan_C18, "C02": plan_C02, "C17": plan_C17}
+def plan_C12(res, binary, hooked, tier, seed):
+    mc = run_tlc("MC_IoFaults", "MC_IoFaults.cfg", "C12_mc", workers=4, timeout=300)
+    res.add_tlc(mc, "the I/O contract (ErrIffFault, PrefixAlways, CompleteOnOk, FlushOnOk, NoCallAfterFailure) against a reference write_all/flush pipeline under every fault script (k-th call fails, Ok(0), arbitrary short writes, failing flush)")
+    trace = os.path.join(WORK, "trace_C12.ndjson")
+    rep = run_harness(binary, ["io", "--property", "C12", "--seed", seed, "--inputs", tq(tier, 4, 20), "--trace", trace], "C12_io")
+    res.add_harness(rep, "for every entry point (3 decoders, raw LZMA2, Stream, 5 encoder variants) and every sample input: fail each sink write (Err and Ok(0)), each flush, each source call; short-write patterns with fragmented sources", counts_as_traces=False)
+    ok, info = validate_trace("Trace_Io", "Trace_Io_shape.cfg", trace, "C12_trace", timeout=tq(tier, 900, 7200))
+    res.add_tlc(info, "trace validation of the recorded sink/source call logs (Contract as invariant after every call)")
+    text = open(info["out"], errors="replace").read()
+    if ok:
+        res.traces += rep["counters"].get("traced_runs", 0)
+    elif "CONTRACT-VIOLATED" in text:
+        import re as _re
+        m = _re.search(r"CONTRACT-VIOLATED at line[^>]*>>", text, _re.S)
+        res.violations.append({"property": "C12", "desc": "the recorded call log violates the I/O contract of IoFaults.tla: " + (m.group(0)[:500] if m else ""),
+                               "case": {"kind": "tlc-trace", "trace_file": trace}})
+    elif "ShapeAt" in text or "NoCallAfterFailure" in text:
+        res.drift.append({"desc": "calls were made after the first failed call (shape tier)"})
+    else:
+        res.drift.append({"desc": "Trace_Io rejected the call log: %s" % (info.get("reject") or "")[:400]})
+    return ("per (entry point, input): fault-free call counts, then every fault position k for sink writes (Err and Ok(0)), flushes and source calls, plus short-write patterns; distinct = distinct (api, input, script)"), [
+        "TLC 1.8; IoFaults.tla", "harness sink/source wrappers (compare every offered buffer with the fault-free output, which for decoders is cross-checked against the specification's output)"]
+
+PLANS = {"C01": plan_C01, "C05": plan_C05, "C08": plan_C08, "C09": plan_C09, "C10": plan_C10, "C15": plan_C15, "C16": plan_C16, "C03": plan_C03, "C06": plan_C06, "C18": plan_C18, "C02": plan_C02, "C17": plan_C17, "C12": plan_C12}
